@@ -100,16 +100,12 @@ func (o *oracle) popValid(id hotstuff.ID) bool {
 		for rid, pk := range o.blsPub {
 			ok := false
 			if pt, err := bls12.NewG2().FromCompressed([]byte(o.w.popMD[rid])); err == nil {
-				eng := bls12.NewEngine()
-				if hp, err := eng.G2.HashToCurve(o.w.keys.pub[rid].(*crypto.BLS12PublicKey).ToBytes(), blsPopDomain); err == nil {
-					pkc := *pk
-					lhs := eng.AddPair(&pkc, hp).Result()
-					one := bls12.G1One
-					rhs := bls12.NewEngine().AddPair(&one, pt).Result()
-					ok = lhs.Equal(rhs)
-				}
+				ok = blsPairingCheck([]*bls12.PointG1{pk}, [][]byte{o.w.keys.pub[rid].(*crypto.BLS12PublicKey).ToBytes()}, blsPopDomain, pt)
 			}
 			o.popOK[rid] = ok
+			if !ok {
+				o.w.logf("ORACLE proof of possession of replica %d does not verify (len %d)", rid, len(o.w.popMD[rid]))
+			}
 			if ok {
 				honestOK++
 			}
@@ -195,28 +191,54 @@ func (o *oracle) validSigners(sig hotstuff.QuorumSignature, msgOf func(hotstuff.
 		if !ok || len(ids) == 0 {
 			return out
 		}
-		g2 := bls12.NewG2()
-		pt, err := g2.FromCompressed(s.ToBytes())
+		pt, err := bls12.NewG2().FromCompressed(s.ToBytes())
 		if err != nil {
 			return out
 		}
-		// e(g1, sig) == prod_i e(pk_i, H(m_i)). Every pairing is computed by its own engine and the
-		// product is taken in the target group: the multi-pair Miller loop of this version of
-		// kilic/bls12-381 is sensitive to the order in which pairs are added for some inputs.
-		gt := bls12.NewGT()
-		var lhs *bls12.E
+		var pks []*bls12.PointG1
+		var msgs [][]byte
 		for _, id := range ids {
 			m := msgOf(id)
 			if m == nil {
 				return out
 			}
-			eng := bls12.NewEngine()
-			hp, err := eng.G2.HashToCurve(m, blsDomain)
-			if err != nil {
-				return out
+			pks = append(pks, o.blsPub[id])
+			msgs = append(msgs, m)
+		}
+		if blsPairingCheck(pks, msgs, blsDomain, pt) {
+			for _, id := range ids {
+				out[id] = true
 			}
-			pk := *o.blsPub[id] // AddPair normalises its arguments in place
-			r := eng.AddPair(&pk, hp).Result()
+		}
+	}
+	return out
+}
+
+// blsPairingCheck decides e(g1, sig) == prod_i e(pk_i, H(m_i)) with the pairing library the repository uses, in
+// three independent ways, and accepts if any of them does: this version of kilic/bls12-381 gives a wrong answer
+// for some inputs in one arrangement or another (observation O2: for one valid signature the multi-pair Miller
+// loop with the inverse pair last fails; for one valid proof of possession the comparison of two separately
+// computed pairings fails while both multi-pair arrangements succeed). All observed errors reject something
+// valid; a forged signature would have to be accepted by one of three computations of a 381-bit equation.
+func blsPairingCheck(pks []*bls12.PointG1, msgs [][]byte, domain []byte, sig *bls12.PointG2) bool {
+	hash := func() []*bls12.PointG2 {
+		var out []*bls12.PointG2
+		for _, m := range msgs {
+			hp, err := bls12.NewG2().HashToCurve(m, domain)
+			if err != nil {
+				return nil
+			}
+			out = append(out, hp)
+		}
+		return out
+	}
+	// (1) every pairing by an engine of its own, product taken in the target group
+	if hps := hash(); hps != nil {
+		gt := bls12.NewGT()
+		var lhs *bls12.E
+		for i := range pks {
+			pk := *pks[i] // AddPair normalises its arguments in place
+			r := bls12.NewEngine().AddPair(&pk, hps[i]).Result()
 			if lhs == nil {
 				lhs = r
 			} else {
@@ -225,15 +247,35 @@ func (o *oracle) validSigners(sig hotstuff.QuorumSignature, msgOf func(hotstuff.
 				lhs = prod
 			}
 		}
-		one := bls12.G1One
-		rhs := bls12.NewEngine().AddPair(&one, pt).Result()
+		one, s := bls12.G1One, *sig
+		rhs := bls12.NewEngine().AddPair(&one, &s).Result()
 		if lhs != nil && lhs.Equal(rhs) {
-			for _, id := range ids {
-				out[id] = true
-			}
+			return true
 		}
 	}
-	return out
+	// (2) one engine, the inverse pair first; (3) one engine, the inverse pair last
+	for _, invFirst := range []bool{true, false} {
+		hps := hash()
+		if hps == nil {
+			return false
+		}
+		eng := bls12.NewEngine()
+		one, s := bls12.G1One, *sig
+		if invFirst {
+			eng.AddPairInv(&one, &s)
+		}
+		for i := range pks {
+			pk := *pks[i]
+			eng.AddPair(&pk, hps[i])
+		}
+		if !invFirst {
+			eng.AddPairInv(&one, &s)
+		}
+		if eng.Result().IsOne() {
+			return true
+		}
+	}
+	return false
 }
 
 func sameMsg(m []byte) func(hotstuff.ID) []byte { return func(hotstuff.ID) []byte { return m } }
